@@ -95,15 +95,16 @@ TAGS = {
     "missing": ["<absent>"], "null": [None], "empty_string": [""], "zero": [0, 0.0], "false": [False], "empty_list": [[]], "empty_dict": [{}],
     "true": [True], "number": [5, -1, 2.5, 1e300], "list": [["a.b"], [1], ["harness.models.jsonmodel.A"]], "dict": [{"x": 1}, {"__json_type__": "a.b"}],
     "no_dot": ["nodot", "A", "dumps"], "leading_dot": [".x", ".A", "..A"], "trailing_dot": ["x.", "nomodule.", "nomodule.sub."],
-    "double_dot": ["a..b", "harness..jsonmodel.A", "nomodule..A"], "unknown_module": ["nomodule.X", "harness.models.nothing.A", "krrood.nope.X", "nomodule.UUID", "no_such_package.ids.A"],
+    "double_dot": ["a..b", "harness..jsonmodel.A", "nomodule..A"], "unknown_module": ["nomodule.X", "harness.models.nothing.A", "krrood.nope.X", "nomodule.UUID", "no_such_package.ids.A", "\u00e9.\u00fc", "1.2", "a.b\u0000c", " json.dumps"],
     "broken_module": ["harness.models.broken_pkg.X", "harness.models.broken_pkg.sub.X"],
-    "module_without_attribute": ["json.Nope", "harness.models.jsonmodel.Nope", "json.", "json.UUID", "json.A", "harness.models.jsonmodel2.C"],
+    "module_without_attribute": ["json.Nope", "harness.models.jsonmodel.Nope", "json.", "json.UUID", "json.A", "harness.models.jsonmodel2.C", "json.\u00e9", "json.dumps ", "json.1"],
     "attr_function": ["json.dumps", "harness.models.jsonmodel.some_function", "os.getcwd"],
     "attr_module": ["os.path", "harness.models", "json.decoder"],
     "attr_typevar": ["typing_extensions.T", "typing.AnyStr", "typing.List"],
-    "attr_constant": ["harness.models.jsonmodel.SOME_TEXT", "harness.models.jsonmodel.SOME_TUPLE", "string.ascii_letters", "sys.maxsize", "math.pi"],
+    "attr_constant": ["harness.models.jsonmodel.SOME_TEXT", "harness.models.jsonmodel.SOME_TUPLE", "string.ascii_letters", "sys.maxsize", "math.pi", "builtins.None", "os.environ", "typing.Any"],
     "attr_abstract_base": ["krrood.adapters.json_serializer.SubclassJSONSerializer"],
-    "attr_plain_class": ["harness.models.jsonmodel.Plain", "decimal.Decimal", "builtins.int"],
+    "attr_plain_class": ["harness.models.jsonmodel.Plain", "decimal.Decimal", "builtins.int", "enum.Enum", "abc.ABC", "builtins.object", "builtins.Exception",
+                         "krrood.adapters.json_serializer.JSONSerializationError", "collections.abc.Mapping"],
     "attr_subclass_of_registered": ["harness.models.jsonmodel.MyUUID", "harness.models.jsonmodel.Stamp"],
     "attr_serializable_class": ["harness.models.jsonmodel.A", "harness.models.jsonmodel.C"],
     "attr_registered_class": ["uuid.UUID", "datetime.date"],
